@@ -97,8 +97,10 @@ func CertWindow(keyName string, nb, na time.Time) *x509.Certificate {
 		serial &= 0x7fffffffffff
 	}
 	tmpl := &x509.Certificate{
-		SerialNumber:          big.NewInt(serial + 1),
-		Subject:               pkix.Name{CommonName: "verif-" + keyName},
+		SerialNumber: big.NewInt(serial + 1),
+		// every IdP-side certificate (trusted, roll-over, and the attacker's) carries the same
+		// subject: certificates must be told apart by identity, never by name
+		Subject:               pkix.Name{CommonName: subjectOf(keyName), Organization: []string{"verif"}},
 		NotBefore:             nb,
 		NotAfter:              na,
 		KeyUsage:              x509.KeyUsageDigitalSignature | x509.KeyUsageKeyEncipherment,
@@ -133,6 +135,14 @@ func (constReader) Read(p []byte) (int, error) {
 		p[i] = 0x5a
 	}
 	return len(p), nil
+}
+
+func subjectOf(keyName string) string {
+	switch keyName {
+	case "KS", "KG", "KX":
+		return "sp.example.com"
+	}
+	return "idp.example.com"
 }
 
 // Window is the default validity window of a key's certificate, as offsets from T0:
